@@ -243,9 +243,41 @@ def shard_extras(arg):
     return part.result()
 
 
+# process sets (templates and partial instances with free parameters in the system line) whose members are used after the system
+# line: building such an expression reads the process's bindings and must leave them as they are
+def process_set_docs():
+    base = ("typedef int[0,2] id_t; int g;\nprocess Unit(const id_t id, const int delay) { int count; clock x; state A, B; init A; "
+            "trans A -> B { guard count < delay; assign count = count + 1; }; }\n")
+    tails = ["system Unit;", "Slow(const id_t id) = Unit(id, 10); system Slow;", "Slow(const id_t id) = Unit(id, 10); S0 = Slow(0); system S0, Slow;",
+             "Mid(const id_t k, const int d) = Unit(k, d); Slow(const id_t id) = Mid(id, 10); system Slow;", "U1 = Unit(1, 5); system U1;"]
+    uses = {"system Unit;": "Unit(0, 5)", "U1 = Unit(1, 5); system U1;": "U1"}
+    out = []
+    for tail in tails:
+        p = uses.get(tail, "Slow(0)")
+        for after in ["", "progress { %s.count; }" % p, "progress { %s.count : g; }" % p, "gantt { G(i : id_t) : %s.count > 0 -> i; }" % p,
+                      "gantt { G : %s.A -> 1, %s.count + %s.count > 2 -> 2; }" % (p, p, p), "progress { %s.count; } gantt { H : %s.B -> 0; }" % (p, p),
+                      "progress { forall (i : id_t) %s.count >= i; }" % p]:
+            out.append(base + tail + "\n" + after + "\n")
+    return out
+
+
 def shard_misc(which):
     part = engine.Part()
     w = engine.worker(FLAV)
+    if which == "psets":
+        for doc in process_set_docs():
+            resp = xmlgen.run_docs(w, [doc], kind="xta")[0]
+            judge(part, resp, "process set / member access %r" % doc[-90:], {"op": "xta", "buf": doc}, "process-set")
+            # the same system section in an XML document
+            i = doc.index("process Unit")
+            j = doc.index("}\n", doc.index("trans")) + 2
+            t = xmlgen.template("Unit", params="const id_t id, const int delay", decl="int count; clock x;",
+                                locations=[xmlgen.location("id0", "A"), xmlgen.location("id1", "B")], init="id0",
+                                transitions=[xmlgen.transition("id0", "id1", guard="count < delay", assign="count = count + 1")])
+            xdoc = xmlgen.nta(doc[:i], [t], doc[j:])
+            resp = xmlgen.run_docs(w, [xdoc], kind="xml")[0]
+            judge(part, resp, "process set / member access (xml) %r" % doc[-90:], {"op": "xml", "buf": xdoc}, "process-set")
+        return part.result()
     if which == "dup":
         for name, doc in dup_docs():
             kind = "xta" if name.startswith("xta:") else "xml"
@@ -270,7 +302,8 @@ def main():
                         "union corpus: C04 choice-tree space (<= %d deviations) as XML and XTA; for <= %d deviations every text block "
                         "x %d hostile texts and every single structural XML fault (delete/duplicate element, drop/empty/alias/dangle "
                         "attribute) at every site; duplicate names over all ordered pairs of 16 declaration kinds (XML and XTA); %d "
-                        "degenerate XTA processes x both syntaxes; 21 constructs beyond the abstract model (records, scalar sets, functions, "
+                        "degenerate XTA processes x both syntaxes; process sets and partial instances with free parameters whose members are used in "
+                        "progress measures and gantt charts; 21 constructs beyond the abstract model (records, scalar sets, functions, "
                         "priorities, before/after update, progress, gantt, system-section declarations) alone, in ordered pairs and cut off "
                         "after every token, as XML and XTA. The invariant checker runs on the Document after every parse "
                         "(normal return, diagnostics, exception)." % (2 if t == "quick" else 3, 0 if t == "quick" else 1, len(HOSTILE),
@@ -302,7 +335,7 @@ def main():
         rep.merge(res)
     for res in engine.pmap(shard_struct, [[p] for p in small]):
         rep.merge(res)
-    for res in engine.pmap(shard_misc, ["dup", "xta"]):
+    for res in engine.pmap(shard_misc, ["dup", "xta", "psets"]):
         rep.merge(res)
     for res in engine.pmap(shard_extras, [(i, n) for i in range(n)]):
         rep.merge(res)
